@@ -835,6 +835,7 @@ def run(ctx):
                  "make_feasible, get_sampled_key, get_route_names, get_routes; state-passing loops with break / continue / try, "
                  "np.random.choice and f-strings as oracles; meaning of the emitted combinators: coq/theories/PyHeurPath.v) + "
                  "harness/translate_path.py (check_arc, add_route: coq/gen/PathGen.v)")
+    from props import pysem; pysem.run(ctx, pysem.GROUPS_FOR.get(ctx.pid, ()))
     dist = collections.Counter()
     reported = set()
     sweep_instances(ctx, dist, reported)
